@@ -90,6 +90,13 @@ Inductive kind :=
   KData | KClosure | KPapp | KArrUnknown | KArrArray | KArrString | KArrPrim | KArrUserdata
 | KString | KExtern | KBytecode | KCell | KOpaque.
 
+(* How `Cloner` produces one field of a copied object (the table itself is GENERATED from
+   value.rs: gen/ClonerGen.v):
+   FInner  deep_clone_inner: shared if the receiver generation may hold it, else cloned
+   FForce  cloned without the generation test
+   FShare  the pointer is copied as it is *)
+Inductive fmode := FInner | FForce | FShare.
+
 Record obj := mkObj {
   o_owner : hid;          (* ghost: the heap whose allocation list holds the object *)
   o_gen : Z;              (* TypeInfo.generation *)
